@@ -1,0 +1,26 @@
+//go:build !verif
+
+// Package verifhook holds the seams used by the deterministic fault
+// simulator in /verif. Without the build tag `verif` every function is an
+// empty, inlinable no-op and the shipped behaviour is unchanged.
+package verifhook
+
+import (
+	"io"
+	"os"
+)
+
+// Step marks a named file-system step. It never fails without the tag.
+func Step(_ string, _ ...string) error { return nil }
+
+// StepFile marks a step that owns an open file (close faults).
+func StepFile(_ string, _ *os.File) {}
+
+// Reader returns a replacement for r, or nil when the stream is not hooked.
+func Reader(_, _ string, _ io.Reader) io.Reader { return nil }
+
+// Writer returns w, possibly wrapped.
+func Writer(_ string, w io.Writer) io.Writer { return w }
+
+// Yield marks a scheduling point.
+func Yield(_ string) {}
